@@ -82,12 +82,18 @@ type behaviour struct {
 	// invalidCode: the handler passes a status code to WriteHeader that net/http refuses with a panic (a proxy handing on
 	// a bad upstream code): nothing has been written, the panic comes out of WriteHeader itself
 	invalidCode int
+	// headers: the handler sets response headers before it writes (a declared Content-Length, a content type, a
+	// Connection: close): what Relay does with a panic does not depend on them
+	headers int
 }
 
 func (b behaviour) String() string {
 	s := fmt.Sprintf("status=%d body=%v", b.status, b.body)
 	if b.invalidCode != 0 {
 		s += fmt.Sprintf(" WriteHeader(%d)", b.invalidCode)
+	}
+	if b.headers > 0 {
+		s += []string{"", " (declares Content-Length)", " (declares Content-Type and a Content-Length it will not honour)", " (sets Connection: close and a Trailer)"}[b.headers]
 	}
 	if b.ctxDone > 0 {
 		s += []string{"", " (request context already cancelled)", " (handler swaps in a request past its deadline)"}[b.ctxDone]
@@ -248,6 +254,16 @@ func handlerFor() httpd.HandlerFunc {
 			ctx, cancel := context.WithDeadline(s.R.Context(), time.Now().Add(-time.Second))
 			defer cancel()
 			s.R = s.R.WithContext(ctx)
+		}
+		switch b.headers {
+		case 1:
+			s.W.Header().Set("Content-Length", "4")
+		case 2:
+			s.W.Header().Set("Content-Type", "application/json")
+			s.W.Header().Set("Content-Length", "1000")
+		case 3:
+			s.W.Header().Set("Connection", "close")
+			s.W.Header().Set("Trailer", "X-Done")
 		}
 		if b.invalidCode != 0 {
 			s.W.WriteHeader(b.invalidCode) // net/http panics: "invalid WriteHeader code ..."
@@ -425,6 +441,7 @@ func genBatch(t *rapid.T) *batch {
 			}
 		}
 		bh.ctxDone = rapid.SampledFrom([]int{0, 0, 0, 1, 2}).Draw(t, "requestContextDone")
+		bh.headers = rapid.SampledFrom([]int{0, 0, 0, 1, 2, 3}).Draw(t, "responseHeaders")
 		bh.body = rapid.Bool().Draw(t, "body")
 		if bh.body {
 			bh.bodyKind = rapid.IntRange(0, 3).Draw(t, "bodyKind")
